@@ -16,6 +16,7 @@ import (
 	"strings"
 	"sync"
 	"testing"
+	"time"
 )
 
 func ccGoid() string {
@@ -111,6 +112,10 @@ func TestVerifSCConc(t *testing.T) {
 		for i := 0; i < callers; i++ { // keys added concurrently; their texts cannot match the inputs
 			out.Emit(map[string]interface{}{"ev": "add", "c": cid, "key": fmt.Sprintf("late%d", i), "ok": true, "panic": ""})
 		}
+		const gapKeys = 10
+		for i := 0; i < gapKeys; i++ { // keys added in the gaps between the critical sections of other calls (below)
+			out.Emit(map[string]interface{}{"ev": "add", "c": cid, "key": fmt.Sprintf("gap%d", i), "ok": true, "panic": ""})
+		}
 		// sequential reference on an identical classifier (the lazy sets of the concurrent one stay unbuilt)
 		ref := mk()
 		for i, in := range inputs {
@@ -145,6 +150,56 @@ func TestVerifSCConc(t *testing.T) {
 			}(i)
 		}
 		wg.Wait()
+		// AddValue in every gap: each time a call is about to release the lock, another goroutine is started that registers a
+		// new value; it waits for the lock (a pending writer goes before later readers), so the registration lands between
+		// this critical section of the call and its next one -- the schedule the lazy-set protocol must survive at every
+		// release point, not only where the scheduler happens to put it
+		if r%2 == 0 {
+			var gmu sync.Mutex
+			ngap := 0
+			var gwg sync.WaitGroup
+			VerifSink = func(ev string, kv ...interface{}) {
+				sink.hook(ev, kv...)
+				if ev != "unlock" {
+					return
+				}
+				gmu.Lock()
+				k := ngap
+				ngap++
+				gmu.Unlock()
+				if k >= gapKeys {
+					return
+				}
+				gwg.Add(1)
+				go func() {
+					defer gwg.Done()
+					if err := c.AddValue(fmt.Sprintf("gap%d", k), fmt.Sprintf("gap filler text number %d entirely about something else", k)); err != nil {
+						emu.Lock()
+						out.Emit(map[string]interface{}{"ev": "addfail", "err": err.Error()})
+						emu.Unlock()
+					}
+				}()
+				time.Sleep(300 * time.Microsecond) // let it reach the lock
+			}
+			for i := 0; i < 2 && i < callers; i++ {
+				wg.Add(1)
+				go func(i int) {
+					defer wg.Done()
+					in := inputs[i]
+					ms := c.MultipleMatch(in)
+					nm := c.NearestMatch(in)
+					emu.Lock()
+					sink.mu.Lock()
+					rec.mmResult(c, cid, in, ms, fmt.Sprintf("r%d|mm|%d", r, i))
+					rec.nmResult(c, cid, in, nm, fmt.Sprintf("r%d|nm|%d", r, i))
+					sink.mu.Unlock()
+					emu.Unlock()
+				}(i)
+			}
+			wg.Wait()
+			gwg.Wait()
+			VerifSink = sink.hook
+		}
 		// the same new key registered by all callers at once: exactly one of them succeeds
 		big := strings.Repeat("some long text to normalise \t\n ", 4000)
 		oks := make([]bool, callers)
